@@ -28,7 +28,7 @@ int SZ_decompress_args_int64(int64_t** newData, size_t r5, size_t r4, size_t r3,
 	size_t dataLength = computeDataLength(r5,r4,r3,r2,r1);
 	
 	//unsigned char* tmpBytes;
-	size_t targetUncompressSize = dataLength <<2; //i.e., *4
+	size_t targetUncompressSize = dataLength <<3; //i.e., *8 (the elements are 8 bytes wide)
 	//tmpSize must be "much" smaller than dataLength
 	size_t i, tmpSize = 3+MetaDataByteLength+1+sizeof(int64_t)+exe_params->SZ_SIZE_TYPE;
 	unsigned char* szTmpBytes;	
